@@ -47,7 +47,7 @@ def annotate(recs, fuel=20000, efuel=20000):
             continue
         t = v.split()
         r["solver"] = {"model": OUTCOME.get(int(t[0]), t[0]), "outcome": t[1] == "1", "log": t[2] == "1", "db": t[3] == "1",
-                       "calls": t[4] == "1" or not enctie.is_sync(r), "sync": enctie.is_sync(r), "side_conditions": t[6] == "1", "born": int(t[7]), "prefix": int(t[5]), "events": sum(1 for e in r["obs"]["dump"]["events"]
+                       "calls": t[4] == "1" or (not enctie.is_sync(r) and t[8] == "1"), "sync": enctie.is_sync(r), "side_conditions": t[6] == "1", "born": int(t[7]), "prefix": int(t[5]), "events": sum(1 for e in r["obs"]["dump"]["events"]
                                                                                  if e == "ul" or (isinstance(e, dict) and ("a" in e or "uu" in e or "sreg" in e)))}
     return recs
 
